@@ -399,7 +399,14 @@ class SymBackend(BackendBase):
         return self.I.wrapb(self.I.bool_term(a) == self.I.bool_term(b))
 
     def contains(self, lst, x):
-        return self.I.contains(lst, x)
+        """identity membership (as the native backend): some live element IS x"""
+        acc = False
+        for i, e in enumerate(lst.elems):
+            c = self.I.identical(e, x)
+            if lst.sym_n is not None:
+                c = self.I.and_(self.I.wrapb(lst.sym_n > i), c)
+            acc = self.I.or_(acc, c)
+        return acc
 
     def count(self, lst, x):
         acc = 0
